@@ -8,7 +8,7 @@
 From Coq Require Import List ZArith QArith Lia Bool ZifyBool.
 From PV Require Import lib.Sx lib.Str lib.Result model.GenScc model.SccLen model.SccTime model.SccStash model.SccDecoder.
 From PV Require Import model.GenSccw model.SccWrap model.SccWrite spec.SpecSccw model.SccRoundTrip.
-From PV Require Import proofs.SccDecodeFacts proofs.SccWriteFacts proofs.SccDocFacts proofs.SccwBridgeFacts proofs.SccRereadNodes.
+From PV Require Import proofs.SccDecodeFacts proofs.SccWriteFacts proofs.SccDocFacts proofs.SccwBridgeFacts proofs.SccRereadNodes proofs.SccRereadLines.
 From PV Require proofs.SccTableFacts proofs.SccDoubleFacts proofs.SccPoponStage1 proofs.SccPoponStage2 proofs.SccWordsFacts
      spec.SpecScc05.
 Import ListNotations.
@@ -216,6 +216,15 @@ Proof.
     rewrite (S1.basic_space c Hb Es). reflexivity.
 Qed.
 
+Lemma basic_no_nl : forall line, forallb is_basic line = true -> no_nl line = true.
+Proof.
+  induction line as [|c t IH]; intros H; [reflexivity|]. cbn [forallb] in H. apply andb_prop in H. destruct H as [Hc Ht].
+  cbn [no_nl forallb]. fold (no_nl t). rewrite (IH Ht), andb_true_r. destruct (Z.eqb_spec c 10) as [->|]; [|reflexivity].
+  vm_compute in Hc. discriminate.
+Qed.
+
+Definition rows_short (lines : list str) : Prop := Forall (fun line : str => (length line <= 32)%nat) lines.
+
 Lemma rows_run : forall lines st ds q tm tc nx first tk l nodes fr,
   1 <= first -> first + Z.of_nat (length lines) <= 16 ->
   Forall (fun line => forallb is_basic line = true) lines ->
@@ -224,7 +233,8 @@ Lemma rows_run : forall lines st ds q tm tc nx first tk l nodes fr,
     S1.tws (ST st tk l ds nodes q tm tc fr) (map word_z (flat_map roww (number_rows first lines))) nx
     = ST st tk' l' ds nodes' q tm tc (fr + Z.of_nat (length (flat_map roww (number_rows first lines))))
     /\ rinv (first + Z.of_nat (length lines) - 1) tk' nodes' /\ plain nodes' = true /\ forallb tame_node nodes' = true /\ lok l'
-    /\ words (ntext nodes') = words (ntext nodes) ++ flat_map words lines.
+    /\ words (ntext nodes') = words (ntext nodes) ++ flat_map words lines
+    /\ (short (ntext nodes) = true -> rows_short lines -> short (ntext nodes') = true).
 Proof.
   induction lines as [|line t IH]; intros st ds q tm tc nx first tk l nodes fr H1 H2 B I P T L.
   - exists tk, l, nodes. cbn [number_rows flat_map map S1.tws length]. rewrite !Z.add_0_r, app_nil_r. auto 10.
@@ -254,8 +264,8 @@ Proof.
       - subst nodes2. destruct I as [->|(Lt & _)]; [left; reflexivity|right]. split; [exact Lt|]. exists ps1, c1. exact E1.
       - right. split; [exact (proj1 C2)|]. exists ps1, c1. exact E1. }
     destruct (IH st ds q tm tc nx (first + 1) (tk_after tk1 line) l2 nodes2 (fr + 2 + Z.of_nat (length (pair_up (map byte_of line))))
-                ltac:(lia) ltac:(lia) Bt I2 P2 T2 L2) as (tk' & l' & nodes' & E' & I' & P' & T' & L' & W').
-    exists tk', l', nodes'. rewrite E'. split; [|split; [|split; [exact P'|split; [exact T'|split; [exact L'|]]]]].
+                ltac:(lia) ltac:(lia) Bt I2 P2 T2 L2) as (tk' & l' & nodes' & E' & I' & P' & T' & L' & W' & S').
+    exists tk', l', nodes'. rewrite E'. split; [|split; [|split; [exact P'|split; [exact T'|split; [exact L'|split]]]]].
     + f_equal. rewrite !app_length. cbn [length]. lia.
     + replace (first + Z.of_nat (S (length t)) - 1) with (first + 1 + Z.of_nat (length t) - 1) by lia. exact I'.
     + rewrite W'. rewrite app_assoc. f_equal. destruct line as [|c0 cs].
@@ -264,6 +274,12 @@ Proof.
         -- reflexivity.
         -- destruct nodes as [|n0 nt]; [discriminate|]. change ([10] ++ c0 :: cs) with (10 :: c0 :: cs).
            apply SccWordsFacts.words_nl.
+    + intros Sh Fl. inversion Fl as [|? ? Fl1 Flt]; subst. apply S'; [|exact Flt]. destruct line as [|c0 cs].
+      * subst nodes2. exact Sh.
+      * destruct C2 as [_ ->]. rewrite Bk. pose proof (basic_no_nl _ Bl) as Nn. destruct I as [->|(Lt & _)].
+        -- cbn [ntext map concat app]. apply runs_ok_line; [exact Nn|cbn [length] in *; lia].
+        -- destruct nodes as [|n0 nt]; [discriminate|]. change ([10] ++ c0 :: cs) with (10 :: c0 :: cs). unfold short.
+           rewrite runs_ok_app_nl. unfold short in Sh. rewrite Sh. apply runs_ok_line; [exact Nn|cbn [length] in *; lia].
 Qed.
 
 (* ---- the framing words ---------------------------------------------------------------------------------------------------- *)
@@ -378,7 +394,8 @@ Lemma load_line_run : forall lines first st tk ds nodes0 q tm tc0 fr0 tc t1 t2,
     translate_line (ST st tk LNone ds nodes0 q tm tc0 fr0) (tc, load_words first lines)
     = ST (closed st q t1) tk' LNone ds' (after_eoc nodes) (queued nodes t2) t2 tc
          (Z.of_nat (length (flat_map roww (number_rows first lines))) + 8)
-    /\ plain nodes = true /\ forallb tame_node nodes = true /\ words (ntext nodes) = flat_map words lines.
+    /\ plain nodes = true /\ forallb tame_node nodes = true /\ words (ntext nodes) = flat_map words lines
+    /\ (rows_short lines -> short (ntext nodes) = true).
 Proof.
   intros lines first st tk ds nodes0 q tm tc0 fr0 tc t1 t2 H1 H2 B G1 G2.
   set (rw := flat_map roww (number_rows first lines)) in *. set (n := Z.of_nat (length rw)) in *.
@@ -390,12 +407,13 @@ Proof.
   destruct (pair_rcl st (tracker_reset tk) d1 [] q tm tc (0 + 2) (S1.nxt (map word_z rw ++ [w_edm; w_edm] ++ [w_eoc; w_eoc]) None)) as (d2 & ->).
   destruct (rows_run lines st d2 q tm tc (S1.nxt ([w_edm; w_edm] ++ [w_eoc; w_eoc]) None) first (tracker_reset tk) LNone [] (0 + 2 + 2)
               H1 H2 B (conj eq_refl (or_introl eq_refl)) eq_refl eq_refl (or_introl eq_refl))
-    as (tk' & l' & nodes & E & _ & P & T & L & W).
+    as (tk' & l' & nodes & E & _ & P & T & L & W & Sh).
   fold rw in E. rewrite E. fold n. replace (0 + 2 + 2 + n) with (n + 4) by lia.
   destruct (pair_edm st tk' l' d2 nodes q tm tc (n + 4) (S1.nxt [w_eoc; w_eoc] None) t1 L G1) as (d3 & ->).
   replace (n + 4 + 2) with (n + 6) by lia.
   destruct (pair_eoc (closed st q t1) tk' d3 nodes tm tc (n + 6) None t2 G2) as (d4 & ->).
-  exists tk', d4, nodes. split; [f_equal; lia|]. split; [exact P|]. split; [exact T|]. rewrite W. reflexivity.
+  exists tk', d4, nodes. split; [f_equal; lia|]. split; [exact P|]. split; [exact T|]. split; [rewrite W; reflexivity|].
+  intros Fl. apply Sh; [reflexivity|exact Fl].
 Qed.
 
 (* a clear line  EDM EDM *)
